@@ -163,6 +163,10 @@ class SOCKS4a(SOCKS4):
         if not isinstance(self._remote_host, (str, IPv4Address)):
             raise SOCKSProtocolError(
                 f'SOCKS4a requires an IPv4 address or host name: {self._remote_host}')
+        # A SOCKS4a server takes 0.0.0.x, x non-zero, to mean that a host name follows
+        if isinstance(self._remote_host, IPv4Address) and 0 < int(self._remote_host) < 256:
+            raise SOCKSProtocolError(
+                f'SOCKS4a cannot express the IPv4 address {self._remote_host}')
 
 
 class SOCKS5(SOCKSBase):
